@@ -91,6 +91,8 @@ type fsink struct {
 	fired  bool
 	calls  []string
 	record bool
+
+	beforeClose int
 }
 
 func (s *fsink) tick(what string) error {
@@ -112,6 +114,12 @@ func (s *fsink) Write(p []byte) (int, error) {
 	s.write(p)
 	return len(p), nil
 }
+
+// Close is the sink's own Close, reached when the Writer owns the sink.
+func (s *fsink) Close() error { return s.tick("C") }
+
+// markClose remembers how many calls were made before Writer.Close.
+func (s *fsink) markClose() { s.beforeClose = s.n }
 
 // fseeksink adds Seek, Read and ReadAt (what an *os.File opened read-write offers).
 type fseeksink struct{ fsink }
@@ -182,6 +190,10 @@ func (s *recSink) Flush() error {
 	return nil
 }
 
+func (s *recSink) Close() error { s.ops = append(s.ops, "c"); return nil }
+
+func (s *recSink) markClose() { s.ops = append(s.ops, "|") }
+
 type recSeekSink struct{ recSink }
 
 func (s *recSeekSink) Seek(off int64, wh int) (int64, error) {
@@ -215,6 +227,7 @@ type wprog struct {
 	v     pdf.Version
 	human bool
 	pw    string
+	owns  bool // Writer.Close also closes the sink (as after pdf.Create)
 	steps []wstep
 }
 
@@ -223,12 +236,12 @@ func (p wprog) String() string {
 	for _, s := range p.steps {
 		ks = append(ks, fmt.Sprintf("%d:%d", s.kind, s.size))
 	}
-	return fmt.Sprintf("v=%v human=%v enc=%v steps=[%s]", p.v, p.human, p.pw != "", strings.Join(ks, " "))
+	return fmt.Sprintf("v=%v human=%v enc=%v owns_sink=%v steps=[%s]", p.v, p.human, p.pw != "", p.owns, strings.Join(ks, " "))
 }
 
 // runProg runs the program, continuing after errors, and returns every error
 // any Writer call returned, in order, and a rendering of everything read back.
-func runProg(w io.Writer, p wprog) (errs []error, readBack string) {
+func runProg(w io.Writer, p wprog) (errs []error, readBack string, closeErr error) {
 	_, seekable := w.(io.ReadSeeker)
 	var rb strings.Builder
 	note := func(err error) {
@@ -243,7 +256,10 @@ func runProg(w io.Writer, p wprog) (errs []error, readBack string) {
 	}
 	out, err := pdf.NewWriter(w, p.v, opt)
 	if err != nil {
-		return []error{err}, ""
+		return []error{err}, "", nil
+	}
+	if p.owns {
+		pdf.VerifCloseUnderlying(out)
 	}
 	var plain, members, streams []pdf.Reference
 	pick := func(l []pdf.Reference, seed uint64) (pdf.Reference, bool) {
@@ -361,13 +377,17 @@ func runProg(w io.Writer, p wprog) (errs []error, readBack string) {
 	note(out.Put(pages, pdf.Dict{"Type": pdf.Name("Pages"), "Kids": pdf.Array{}, "Count": pdf.Integer(0)}))
 	out.GetMeta().Catalog.Pages = pages
 	out.GetMeta().Info.Title = "t"
-	note(out.Close())
-	return errs, rb.String()
+	if m, ok := w.(interface{ markClose() }); ok {
+		m.markClose()
+	}
+	closeErr = out.Close()
+	note(closeErr)
+	return errs, rb.String(), closeErr
 }
 
 func genProg(R *rand.Rand, i int) wprog {
 	vs := []pdf.Version{pdf.V1_4, pdf.V1_7, pdf.V2_0}
-	p := wprog{v: vs[i%3], human: i%7 == 3}
+	p := wprog{v: vs[i%3], human: i%7 == 3, owns: i%2 == 0}
 	if i%4 == 3 {
 		p.pw = "u"
 	}
@@ -427,12 +447,13 @@ func sinkSide(R *rand.Rand) {
 				return s, s
 			}
 			w, s := mk(0, false, true)
-			cleanErrs, cleanRB := runProg(w, p)
+			cleanErrs, cleanRB, _ := runProg(w, p)
 			if len(cleanErrs) > 0 {
 				panic(fmt.Sprintf("sink program %v fails without a fault: %v", p, cleanErrs[0]))
 			}
 			total := s.n
 			calls := s.calls
+			beforeClose := s.beforeClose
 			cleanBytes := s.buf
 			id := fmt.Sprintf("w%d.%v", i, seekable)
 			deterministic := p.pw == ""
@@ -452,11 +473,13 @@ func sinkSide(R *rand.Rand) {
 			}
 			for _, only := range []bool{false, true} {
 				letters := make([]byte, 0, total)
+				var closeLetters []byte
 				for k := 1; k <= total; k++ {
 					w, s := mk(k, only, false)
 					var errs []error
 					var rb string
-					got := guarded(watchdog, func() (string, error) { errs, rb = runProg(w, p); return "", nil })
+					var closeErr error
+					got := guarded(watchdog, func() (string, error) { errs, rb, closeErr = runProg(w, p); return "", nil })
 					if got.skipped {
 						return
 					}
@@ -486,9 +509,22 @@ func sinkSide(R *rand.Rand) {
 						cls, letter = "swallowed", 'n'
 					}
 					e.Count(s.fired, fmt.Sprintf("sink|%d|%v|%d|%v", i, seekable, k, only), fmt.Sprintf("sink/%s/%s", what, cls))
-					if what == "W" || what == "S" {
-						// the model's fault index counts Write and Seek calls only
+					if what == "W" || what == "S" || what == "C" {
+						// the model's fault index counts Write, Seek and Close calls only
 						letters = append(letters, letter)
+					}
+					if k > beforeClose && !got.timeout && got.panicked == "" {
+						// a call made by Writer.Close itself: Close must return the error
+						cl := byte('y')
+						if !errors.Is(closeErr, errSink) {
+							cl = 'n'
+							failCapped(fmt.Sprintf("sink:close-result-lacks-sink-error:%s:seekable=%v", what, seekable),
+								fmt.Sprintf("Writer.Close on a %s sink failing %s at sink call #%d/%d (%s), a call made by Close itself: the result of Close does not carry the sink's error (%v)",
+									map[bool]string{true: "seekable", false: "non-seekable"}[seekable], fmName(only), k, total, calls[k-1], closeErr),
+								map[string]any{"program": p.String(), "seekable": seekable, "k": k, "first_call_of_close": beforeClose + 1,
+									"sink_calls_in_clean_run": total, "fault": fmName(only), "failing_sink_call": calls[k-1], "owns_sink": p.owns})
+						}
+						closeLetters = append(closeLetters, cl)
 					}
 					if letter != 'y' && letter != 's' {
 						c := map[string]any{"program": p.String(), "seekable": seekable, "k": k, "sink_calls_in_clean_run": total,
@@ -503,7 +539,7 @@ func sinkSide(R *rand.Rand) {
 						if got.panicked != "" {
 							c["panic"] = got.panicked
 						}
-						e.Fail(fmt.Sprintf("sink:%s:%s:seekable=%v", cls, what, seekable),
+						failCapped(fmt.Sprintf("sink:%s:%s:seekable=%v", cls, what, seekable),
 							fmt.Sprintf("Writer program on a %s sink failing %s at sink call #%d/%d (%s): no Writer call up to Close returned an error carrying the sink's (%s)",
 								map[bool]string{true: "seekable", false: "non-seekable"}[seekable], fmName(only), k, total, calls[k-1], cls), c)
 					}
@@ -511,6 +547,8 @@ func sinkSide(R *rand.Rand) {
 				if deterministic {
 					e.Line("cases.txt", "%s.%s K %s %s", id, fmName(only), fmName(only), strings.Join(ops, " "))
 					e.Line("impl.obs", "%s.%s %s", id, fmName(only), dash(string(letters)))
+					e.Line("cases.txt", "%s.close.%s L %s %s", id, fmName(only), fmName(only), strings.Join(ops, " "))
+					e.Line("impl.obs", "%s.close.%s %s", id, fmName(only), dash(string(closeLetters)))
 				}
 			}
 			if i < 4 {
